@@ -15,7 +15,8 @@ RULE = ("All expression ASTs over connectives not/and/or (optional 'not' on ever
         "fully-parenthesised, double-parenthesised, with @ on all/alternating operands, with doubled spaces and in "
         "list-of-terms form (plain terms, one term, terms written as '(left) op (right)'); each rendering evaluated by behave on ALL 256 subsets of the 8-tag universe and compared "
         "with an independent evaluator; str()/to_string() re-parsed must give the same table; {config.tags} "
-        "substitution through Configuration.setup_tag_expression. A case is non-trivial (and counted distinct by its "
+        "substitution through Configuration.setup_tag_expression (with every process-wide protocol a previous Configuration "
+        "may have left behind). A case is non-trivial (and counted distinct by its "
         "AST) when its reference truth table is neither constant nor equal to the table of one bare operand.")
 ASSUMPTIONS = ["tag universe of 8 tags: wildcard extent and case-sensitivity are only witnessed by the tags in it",
                "operand texts outside the alphabet (e.g. quotes, backslash escapes other than '\\(' '\\)') are not covered"]
@@ -232,8 +233,15 @@ _CFG = []
 
 def check_config_pair(case):
     """{config.tags} substitution: config tags x command-line expression"""
-    cfg_ast, cmd_template, as_list = case
+    cfg_ast, cmd_template, as_list = case[:3]
+    leftover = case[3] if len(case) > 3 else None
     from behave.configuration import Configuration
+    from behave.tag_expression.builder import TagExpressionProtocol as TP
+    # history: the process-wide default protocol left behind by an EARLIER Configuration of this process
+    if "_current" in TP.__dict__:
+        delattr(TP, "_current")
+    if leftover:
+        TP.use(leftover)
     if not _CFG:
         _CFG.append(Configuration("", load_config=False))
     cfg = _CFG[0]
@@ -269,6 +277,10 @@ def check_config_pair(case):
         v.append(({"subcheck": "config.tags", "clause": "truth-table"},
                   "config tags %r, --tags %r -> tags %r: behave says %s, formula says %s"
                   % (cfg_text, text, SUBSETS[i], got[i], want[i])))
+    for d, msg in v:
+        d["leftover_protocol"] = leftover or "none"
+    if "_current" in TP.__dict__:
+        delattr(TP, "_current")
     nt = ("cfg", case) if len(set(want)) > 1 else None
     return {"v": v, "nt": nt, "out": digest(want), "dg": got}
 
@@ -303,7 +315,8 @@ def run(ctx):
                  ("or", ("lit", "c"), ("lit", "{config.tags}")),
                  ("and", ("not", ("lit", "c")), ("lit", "{config.tags}")),
                  ("or", ("and", ("lit", "{config.tags}"), ("lit", "c")), ("lit", "x-1"))]
-    pairs = [(c, t, l) for c in small + [None] for t in templates for l in (False, True)]
+    pairs = [(c, t, l, lo) for c in small + [None] for t in templates for l in (False, True)
+             for lo in (None, "v1", "v2", "auto_detect")]
     ctx.sweep(check_config_pair, pairs, chunk=32, name="config.tags substitution")
     ctx.guard(len(ctx.nt) > 1000, "at least 1000 distinct non-trivial expressions")
     ctx.guard(len(ctx.outcomes) > 50, "at least 50 distinct truth tables observed")
